@@ -16,7 +16,7 @@ from vf.engines.hist import histories
 from vf.lib import c13_model as M
 from vf.lib.c13_model import Precond, ENC
 
-from coba.pipes.rows import HeadRows, EncodeRows, DropRows, LabelRows, EncodeCatRows
+from coba.pipes.rows import HeadRows, EncodeRows, DropRows, LabelRows, EncodeCatRows, LazyDense, LazySparse
 from coba.pipes.readers import ArffReader
 from coba.primitives import Categorical
 from coba.context import CobaContext, NullLogger, MemoryCacher
@@ -75,6 +75,22 @@ def make_filter(st, before: M.Tbl):
     raise ValueError(st)
 
 
+def _lazy_dense(raw):
+    """LazyDense rows wired like ArffReader does (loader callable, one encoder per column, header map, missing flag)."""
+    encs = tuple(ENC[e] for e in M.LZ_ENC)
+    hdr = {h: i for i, h in enumerate(M.LZ_HDR)}
+    return [LazyDense((lambda r=r: r), encs, hdr, False) for r in raw]
+
+
+def _lazy_sparse(raw):
+    """LazySparse rows wired like ArffReader does (encoders by column number, not-sparse set, forward / inverse header maps)."""
+    encs = {k: ENC[e] for k, e in M.LZS_ENC.items()}
+    fwd = {h: i for i, h in enumerate(M.LZ_HDR)}
+    inv = {i: h for i, h in enumerate(M.LZ_HDR)}
+    nsp = {k for k, e in encs.items() if e('0') != 0}
+    return [LazySparse((lambda r=r: r), encs, nsp, fwd, inv, False) for r in raw]
+
+
 class Plan:
     """Everything about a (source, stages) pair that does not involve live coba objects: the eager tables before
     every stage and the final eager table."""
@@ -90,7 +106,10 @@ class Plan:
     def build(self):
         """Fresh real row objects for the whole output table."""
         kind, raw = M.source_raw(self.src)
-        rows = ArffReader().filter(raw) if kind == 'arff' else raw
+        if kind == 'arff': rows = ArffReader().filter(raw)
+        elif kind == 'lazydense': rows = _lazy_dense(raw)
+        elif kind == 'lazysparse': rows = _lazy_sparse(raw)
+        else: rows = raw
         for st, before in zip(self.stages, self.before):
             rows = make_filter(st, before).filter(rows)
         return list(rows)
@@ -234,8 +253,8 @@ FAMILY = {'i': 'row[position]', 'h': 'row[header name]', 'k': 'row[key]', 'list'
           'other': 'neighbouring row', 'build': 'building the pipeline'}
 STAGE_CLASS = {'head': 'Head', 'headmap': 'Head', 'shead': 'Head', 'enc': 'Encode', 'drop': 'Drop', 'label': 'Label', 'cat': 'EncodeCat'}
 SRC_CLASS = {'dl': 'dense lists', 'dc': 'dense lists', 'sk': 'sparse dicts', 'si': 'sparse dicts', 'sc': 'sparse dicts',
-             'ad': 'lazy ARFF dense', 'as': 'lazy ARFF sparse', 'aq': 'lazy ARFF dense'}
-SIMPLER_SRC = {'dc': ['dl'], 'aq': ['ad'], 'si': ['sk'], 'sc': ['sk'], 'as': ['sk']}
+             'ad': 'lazy ARFF dense', 'as': 'lazy ARFF sparse', 'aq': 'lazy ARFF dense', 'lz': 'LazyDense rows', 'lzs': 'LazySparse rows'}
+SIMPLER_SRC = {'dc': ['dl'], 'aq': ['ad'], 'si': ['sk'], 'sc': ['sk'], 'as': ['sk'], 'lzs': ['sk', 'as'], 'lz': ['ad']}
 
 
 def chain_text(src, stages):
@@ -274,9 +293,9 @@ class C13(Check):
     ID = 'C13'
     LEVEL = 'model_checking'
     ENGINE = 'HIST'
-    RULE = ('cases = (source table, pipeline, output row): 8 sources (dense lists, dense lists with a Categorical column, sparse '
+    RULE = ('cases = (source table, pipeline, output row): 10 sources (dense lists, dense lists with a Categorical column, sparse '
             'dicts with str / int keys / a Categorical entry, ARFF dense, ARFF sparse with default-zero entries, ARFF dense with '
-            'mixed quoting) x every pipeline of <=2 (thorough <=3) stages from the stage alphabet valid for the table shape '
+            'mixed quoting, LazyDense / LazySparse rows wired like ArffReader but with non-idempotent encoders) x every pipeline of <=2 (thorough <=3) stages from the stage alphabet valid for the table shape '
             '(HeadRows list / mapping, EncodeRows list / dict by index / dict by header, DropRows cols by index / by name / row '
             'predicate by index / by name / missing, LabelRows by index / by name with c,r,m, EncodeCatRows onehot / '
             'onehot_tuple / string) x every output row, simplest first; inside a case EVERY access history of length <=2 over the '
@@ -297,7 +316,7 @@ class C13(Check):
     ]
     TECHNIQUE = ('explicit-state exploration of access histories on one real row object (replay from scratch, no state merging) x '
                  'bounded-exhaustive enumeration of filter pipelines, against an eager plain list/dict reference model')
-    LEVEL_TEXT = ('For every pipeline of <=2 (thorough <=3) row filters over 8 small source tables and every output row, every access '
+    LEVEL_TEXT = ('For every pipeline of <=2 (thorough <=3) row filters over 10 small source tables and every output row, every access '
                   'history of length <=2 over the full access alphabet and of length 3 over one access per kind is executed on freshly '
                   'built real row objects; every answer is compared with the eager table, so both "values equal the eager ones" and '
                   '"no access changes later answers" are decided for every history below the bound.')
